@@ -8,7 +8,8 @@
 //     channel cannot be told apart syntactically and is left alone) gets a scheduling point before
 //     and after it, and every `go` statement one before it.
 //
-// The shim packages are added as virtual directories <repo>/verifshim/{sched,sync,sync/atomic}.
+// The shim packages are added as virtual directories <repo>/verifshim/{sched,sync,sync/atomic,clock};
+// calls of time.Now are redirected to verifshim/clock (the machine's clock unless a check installs a source).
 // <repo> itself is not touched; files that need no change are not in the overlay.
 package main
 
@@ -40,7 +41,7 @@ func main() {
 		fail(err)
 	}
 	repl := map[string]string{}
-	for _, p := range [][2]string{{"sched", "verifshim/sched"}, {"sync", "verifshim/sync"}, {"atomic", "verifshim/sync/atomic"}} {
+	for _, p := range [][2]string{{"sched", "verifshim/sched"}, {"sync", "verifshim/sync"}, {"atomic", "verifshim/sync/atomic"}, {"clock", "verifshim/clock"}} {
 		ents, err := os.ReadDir(filepath.Join(shim, p[0]))
 		if err != nil {
 			fail(err)
@@ -70,7 +71,7 @@ func main() {
 		if err != nil {
 			return nil
 		}
-		if !bytes.Contains(src, []byte(`"sync`)) && !bytes.Contains(src, []byte("<-")) && !bytes.Contains(src, []byte("select")) && !bytes.Contains(src, []byte("go ")) {
+		if !bytes.Contains(src, []byte(`"sync`)) && !bytes.Contains(src, []byte("<-")) && !bytes.Contains(src, []byte("select")) && !bytes.Contains(src, []byte("go ")) && !bytes.Contains(src, []byte("time.Now")) {
 			return nil
 		}
 		res, changed, err := rewrite(path, src)
@@ -150,6 +151,29 @@ func rewrite(path string, src []byte) ([]byte, bool, error) {
 		}
 		return true
 	})
+	// the clock seam: time.Now -> verifclock.Now (files that import "time" under its own name)
+	clocked := false
+	for _, im := range f.Imports {
+		if p, _ := strconv.Unquote(im.Path.Value); p == "time" && (im.Name == nil || im.Name.Name == "time") {
+			ast.Inspect(f, func(n ast.Node) bool {
+				if sel, ok := n.(*ast.SelectorExpr); ok && sel.Sel.Name == "Now" {
+					if id, ok := sel.X.(*ast.Ident); ok && id.Name == "time" && id.Obj == nil {
+						id.Name = "verifclock"
+						clocked = true
+					}
+				}
+				return true
+			})
+		}
+	}
+	if clocked {
+		changed = true
+		spec := &ast.ImportSpec{Name: ast.NewIdent("verifclock"), Path: &ast.BasicLit{Kind: token.STRING, Value: strconv.Quote(mod + "/verifshim/clock")}}
+		f.Decls = append([]ast.Decl{&ast.GenDecl{Tok: token.IMPORT, Specs: []ast.Spec{spec}}}, f.Decls...)
+		// keep the time import in use
+		keep := &ast.GenDecl{Tok: token.VAR, Specs: []ast.Spec{&ast.ValueSpec{Names: []*ast.Ident{ast.NewIdent("_")}, Type: &ast.SelectorExpr{X: ast.NewIdent("time"), Sel: ast.NewIdent("Duration")}}}}
+		f.Decls = append(f.Decls, keep)
+	}
 	if instrumented {
 		changed = true
 		// add the import
